@@ -1,6 +1,7 @@
 //! Damaged logs (C10), planted garbage (C08), settings/version gate (C19).
 
 use std::fs;
+use std::panic::{AssertUnwindSafe, catch_unwind};
 use std::path::{Path, PathBuf};
 
 use serde_json::{Value, json};
@@ -243,13 +244,28 @@ pub fn run_plant<K: HKey>(sid: &Value, cfg: &Cfg, ops: &[Value], sel0: usize, sc
             let mut c2 = cfg.clone();
             c2.verify = verify;
             let disk = alpha::alpha(&dir, &names_of(&u), NK);
+            // the integrity gate of the plain `Cas::open` on a copy of the planted directory
+            let strict = {
+                let d2 = scratch.join("plant-strict");
+                let _ = fs::remove_dir_all(&d2);
+                copy_dir(&dir, &d2);
+                let mut conf = c2.config();
+                conf.fail_on_integrity_errors = true;
+                let r = match catch_unwind(AssertUnwindSafe(|| cassadilia::Cas::<K>::open(&d2, conf))) {
+                    Ok(Ok(_)) => crate::store::res_ok("ok", 0),
+                    Ok(Err(e)) => crate::store::res_err(&crate::store::err_class(&e)),
+                    Err(p) => crate::store::res_panic(&crate::store::panic_msg(p)),
+                };
+                let _ = fs::remove_dir_all(&d2);
+                r
+            };
             let mut st = Store::<K>::new(&dir, &c2);
             let res = st.open();
             let obs = st.observe();
             let cres = st.exec(&json!({"op": "cleanup"}), 0);
             let cobs = st.observe();
             st.close();
-            out.emit(&json!({"ev": "plant", "plants": set, "verify": verify,
+            out.emit(&json!({"ev": "plant", "plants": set, "verify": verify, "strict": strict,
                              "rec": {"disk": disk, "res": res, "obs": obs}, "cres": cres, "cobs": cobs}));
         }
     }
